@@ -2,6 +2,7 @@ import Ogen.JsonCodecModel
 import Ogen.JsonEqualStruct_proof
 /-! C04: theorems about the codec model `JCodec` (round trip, the decoder builds only values of the type, it
     accepts exactly the documents the schema admits, the encoder's output is admitted). -/
+set_option linter.constructorNameAsVariable false
 namespace JCodec
 open JEqG
 
@@ -17,7 +18,7 @@ theorem encode_ne_null : ∀ (t : Ty) (v : Val), WT t v → encode t v ≠ .null
   | .arr _ _ _, .omitted, h | .arr _ _ _, .null, h | .arr _ _ _, .int _, h | .arr _ _ _, .str _, h | .arr _ _ _, .bool _, h | .arr _ _ _, .obj _, h => by simp [WT] at h
   | .obj _ _, .omitted, h | .obj _ _, .null, h | .obj _ _, .int _, h | .obj _ _, .str _, h | .obj _ _, .bool _, h | .obj _ _, .arr _, h => by simp [WT] at h
 
-theorem findIdx_hit (pre : List Field) (n : String) (req nul : Bool) (t : Ty) (rest : List Field) (i : Nat)
+theorem findIdx_hit (pre : List Field) (n : String) (req : Pres) (nul : Bool) (t : Ty) (rest : List Field) (i : Nat)
     (h : n ∉ names pre) : findIdx (pre ++ (n, req, nul, t) :: rest) n i = some (i + pre.length, nul, t) := by
   induction pre generalizing i with
   | nil => simp [findIdx]
@@ -36,7 +37,7 @@ theorem requiredOk_of_wt : ∀ (fs : List Field) (ms : List Val), WTFields fs ms
     simp only [WTFields] at h
     simp only [requiredOk, Bool.and_eq_true]
     refine ⟨?_, requiredOk_of_wt fs ms h.2⟩
-    cases m <;> simp_all [memberOk, Val.isOmitted]
+    cases m <;> cases req <;> simp_all [memberOk, Val.isOmitted, Pres.mayOmit, Pres.isReq]
 
 theorem memberOf_encode (req nul : Bool) (t : Ty) (m : Val) (hm : memberOk req nul m (WT t m)) (ho : m.isOmitted = false)
     (ih : WT t m → decode t (encode t m) = some m) :
@@ -89,20 +90,23 @@ theorem decodeItems_encodeItems (nul : Bool) (t : Ty) : ∀ (xs : List Val), t.W
     rw [memberOf_encode true nul t x h.1 hx (decode_encode t x hw), decodeItems_encodeItems nul t xs hw h.2]
 theorem decodeMembers_encodeFields (closed : Bool) (pre : List Field) (preSt : List Val) : ∀ (fs : List Field) (ms : List Val),
     (names (pre ++ fs)).Nodup → Ty.WF.WFs fs → preSt.length = pre.length → WTFields fs ms →
-    decodeMembers closed (pre ++ fs) (preSt ++ fs.map fun _ => .omitted) (encodeFields fs ms) = some (preSt ++ ms)
+    decodeMembers closed (pre ++ fs) (preSt ++ fs.map initState) (encodeFields fs ms) = some (preSt ++ ms)
   | [], [], _, _, _, _ => by simp [encodeFields, decodeMembers]
   | [], _ :: _, _, _, _, h | _ :: _, [], _, _, _, h => by simp [WTFields] at h
   | (n, req, nul, t) :: fs, m :: ms, hn, hw, hl, h => by
     simp only [WTFields] at h
     simp only [Ty.WF.WFs] at hw
     have hrec := decodeMembers_encodeFields closed (pre ++ [(n, req, nul, t)]) (preSt ++ [m]) fs ms
-      (by simpa [List.append_assoc] using hn) hw.2 (by simp [hl]) h.2
+      (by simpa [List.append_assoc] using hn) hw.2.2 (by simp [hl]) h.2
     simp only [List.append_assoc, List.singleton_append] at hrec
     cases hm : m.isOmitted with
     | true =>
       have : m = .omitted := by cases m <;> simp_all [Val.isOmitted]
       subst this
-      simpa [encodeFields] using hrec
+      have hinit : initState (n, req, nul, t) = .omitted := by
+        have := h.1
+        cases req <;> simp_all [memberOk, Pres.mayOmit, initState, Pres.init]
+      simpa [encodeFields, hinit] using hrec
     | false =>
       have henc : encodeFields ((n, req, nul, t) :: fs) (m :: ms) = (n, encode t m) :: encodeFields fs ms := by
         cases m <;> simp_all [encodeFields, Val.isOmitted]
@@ -113,10 +117,10 @@ theorem decodeMembers_encodeFields (closed : Bool) (pre : List Field) (preSt : L
         exact this n (by simpa [names] using hmem) n (List.mem_cons_self ..) rfl
       rw [henc]
       simp only [decodeMembers, findIdx_hit pre n req nul t fs 0 hnot, Nat.zero_add]
-      rw [memberOf_encode req nul t m h.1 hm (decode_encode t m hw.1)]
+      rw [memberOf_encode (!req.mayOmit) nul t m h.1 hm (decode_encode t m hw.1)]
       simp only
-      have hset : (preSt ++ List.map (fun _ => Val.omitted) ((n, req, nul, t) :: fs)).set pre.length m
-          = preSt ++ m :: List.map (fun _ => Val.omitted) fs := by
+      have hset : (preSt ++ List.map initState ((n, req, nul, t) :: fs)).set pre.length m
+          = preSt ++ m :: List.map initState fs := by
         rw [← hl]; simp
       rw [hset]; exact hrec
 end
@@ -126,15 +130,26 @@ end
 /-- the decoder's working state: every slot is still `omitted` or already holds a member of its field -/
 def PWT : List Field → List Val → Prop
   | [], [] => True
-  | (_, _, nul, t) :: fs, m :: ms => memberOk false nul m (WT t m) ∧ PWT fs ms
+  | (_, req, nul, t) :: fs, m :: ms => memberOk req.isDflt nul m (WT t m) ∧ PWT fs ms
   | _, _ => False
 
-theorem pwt_init : ∀ (fs : List Field), PWT fs (fs.map fun _ => .omitted)
-  | [] => by simp [PWT]
-  | (_, _, _, _) :: fs => by simp [PWT, memberOk, pwt_init fs]
+theorem wt_memberOk : ∀ (t : Ty) (v : Val) (b nul : Bool), WT t v → memberOk b nul v (WT t v)
+  | _, .omitted, _, _, h | _, .null, _, _, h => by cases ‹Ty› <;> simp [WT] at h
+  | _, .int _, _, _, h | _, .str _, _, _, h | _, .bool _, _, _, h | _, .arr _, _, _, h | _, .obj _, _, _, h => by simpa [memberOk] using h
+
+theorem pwt_init : ∀ (fs : List Field), Ty.WF.WFs fs → PWT fs (fs.map initState)
+  | [], _ => by simp [PWT]
+  | (_, req, nul, t) :: fs, hw => by
+    simp only [Ty.WF.WFs] at hw
+    simp only [List.map_cons, PWT]
+    refine ⟨?_, pwt_init fs hw.2.2⟩
+    cases req with
+    | req => simp [initState, Pres.init, Pres.isDflt, memberOk]
+    | opt => simp [initState, Pres.init, Pres.isDflt, memberOk]
+    | dflt d => exact wt_memberOk t d _ nul (hw.2.1 d rfl).1
 
 theorem pwt_set : ∀ (fs : List Field) (st : List Val) (k : String) (i0 i : Nat) (nul : Bool) (t : Ty) (v : Val),
-    findIdx fs k i0 = some (i, nul, t) → PWT fs st → memberOk false nul v (WT t v) → PWT fs (st.set (i - i0) v)
+    findIdx fs k i0 = some (i, nul, t) → PWT fs st → (∀ b, memberOk b nul v (WT t v)) → PWT fs (st.set (i - i0) v)
   | [], _, _, _, _, _, _, _, h, _, _ => by simp [findIdx] at h
   | _ :: _, [], _, _, _, _, _, _, _, h, _ => by simp [PWT] at h
   | (n, req, nul', t') :: fs, m :: ms, k, i0, i, nul, t, v, hf, hp, hv => by
@@ -142,7 +157,7 @@ theorem pwt_set : ∀ (fs : List Field) (st : List Val) (k : String) (i0 i : Nat
     simp only [PWT] at hp
     split at hf
     · cases hf
-      simp [PWT, hp.2, hv]
+      simp [PWT, hp.2, hv _]
     · have hge : i0 + 1 ≤ i := findIdx_ge fs k (i0 + 1) i nul t hf
       have := pwt_set fs ms k (i0 + 1) i nul t v hf hp.2 hv
       have e : i - i0 = (i - (i0 + 1)) + 1 := by omega
@@ -164,7 +179,7 @@ theorem wt_of_pwt : ∀ (fs : List Field) (ms : List Val), PWT fs ms → require
     simp only [requiredOk, Bool.and_eq_true] at hr
     simp only [WTFields]
     refine ⟨?_, wt_of_pwt fs ms hp.2 hr.2⟩
-    cases m <;> simp_all [memberOk, Val.isOmitted]
+    cases m <;> cases req <;> simp_all [memberOk, Val.isOmitted, Pres.mayOmit, Pres.isReq, Pres.isDflt]
 
 theorem wt_not_slot : ∀ (t : Ty) (v : Val) (req nul : Bool), WT t v → memberOk req nul v (WT t v)
   | _, .omitted, _, _, h | _, .null, _, _, h => by cases ‹Ty› <;> simp [WT] at h
@@ -184,28 +199,65 @@ theorem memberOf_wt (req nul : Bool) (t : Ty) (j : Json) (v : Val) (ih : decode 
     refine ⟨wt_not_slot t v req nul hw, ?_⟩
     cases v <;> first | rfl | (cases t <;> simp [WT] at hw)
 
+theorem findIdx_some_mem : ∀ (fs : List Field) (k : String) (i0 i : Nat) (nul : Bool) (t : Ty),
+    findIdx fs k i0 = some (i, nul, t) → ∃ req, (k, req, nul, t) ∈ fs
+  | [], _, _, _, _, _, h => by simp [findIdx] at h
+  | (n, req, nul', t') :: fs, k, i0, i, nul, t, h => by
+    simp only [findIdx] at h
+    split at h
+    · rename_i heq
+      have heq : n = k := by simpa using heq
+      cases h; subst heq
+      exact ⟨req, List.mem_cons_self ..⟩
+    · obtain ⟨r, hr⟩ := findIdx_some_mem fs k (i0 + 1) i nul t h
+      exact ⟨r, List.mem_cons_of_mem _ hr⟩
+
+theorem wfs_mem : ∀ (fs : List Field) (f : Field), Ty.WF.WFs fs → f ∈ fs → f.2.2.2.WF
+  | [], _, _, h => by cases h
+  | (n, req, nul, t) :: fs, f, hw, h => by
+    simp only [Ty.WF.WFs] at hw
+    rcases List.mem_cons.mp h with e | h
+    · cases e; exact hw.1
+    · exact wfs_mem fs f hw.2.2 h
+
+theorem wfs_mem_dflt : ∀ (fs : List Field) (f : Field) (d : Val), Ty.WF.WFs fs → f ∈ fs → f.2.1 = .dflt d →
+    WT f.2.2.2 d ∧ validate f.2.2.2 d = true
+  | [], _, _, _, h, _ => by cases h
+  | (n, req, nul, t) :: fs, f, d, hw, h, hd => by
+    simp only [Ty.WF.WFs] at hw
+    rcases List.mem_cons.mp h with e | h
+    · cases e; exact hw.2.1 d hd
+    · exact wfs_mem_dflt fs f d hw.2.2 h hd
+
+theorem findIdx_wf (fs : List Field) (k : String) (i0 i : Nat) (nul : Bool) (t : Ty) (hw : Ty.WF.WFs fs)
+    (h : findIdx fs k i0 = some (i, nul, t)) : t.WF := by
+  obtain ⟨req, hm⟩ := findIdx_some_mem fs k i0 i nul t h
+  exact wfs_mem fs _ hw hm
+
 mutual
 /-- **whatever the decoder accepts, it turns into a value of the type** (three states only where the schema
     allows them, every required member present, items and members of the declared types) -/
-theorem decode_wt : ∀ (j : Json) (t : Ty) (v : Val), decode t j = some v → WT t v
-  | .null, t, v, h => by cases t <;> simp [decode] at h
-  | .bool b, t, v, h => by cases t <;> simp [decode] at h; subst h; simp [WT]
-  | .str s, t, v, h => by cases t <;> simp [decode] at h; subst h; simp [WT]
-  | .num (.int n), t, v, h => by
+theorem decode_wt : ∀ (j : Json) (t : Ty) (v : Val), t.WF → decode t j = some v → WT t v
+  | .null, t, v, _, h => by cases t <;> simp [decode] at h
+  | .bool b, t, v, _, h => by cases t <;> simp [decode] at h; subst h; simp [WT]
+  | .str s, t, v, _, h => by cases t <;> simp [decode] at h; subst h; simp [WT]
+  | .num (.int n), t, v, _, h => by
     cases t <;> simp [decode] at h
     obtain ⟨hr, rfl⟩ := h
     simp [WT, hr]
-  | .num .frac, t, v, h => by cases t <;> simp [decode] at h
-  | .arr xs, t, v, h => by
+  | .num .frac, t, v, _, h => by cases t <;> simp [decode] at h
+  | .arr xs, t, v, hw, h => by
     cases t with
     | arr _ nul t =>
       simp only [decode, Option.map_eq_some_iff] at h
       obtain ⟨vs, hvs, rfl⟩ := h
-      simpa [WT] using decodeItems_wt xs nul t vs hvs
+      simp only [Ty.WF] at hw
+      simpa [WT] using decodeItems_wt xs nul t vs hw hvs
     | int _ | str _ | bool | obj _ _ => simp [decode] at h
-  | .obj kvs, t, v, h => by
+  | .obj kvs, t, v, hw, h => by
     cases t with
     | obj closed fs =>
+      simp only [Ty.WF] at hw
       simp only [decode] at h
       split at h
       · rename_i st hst
@@ -213,36 +265,36 @@ theorem decode_wt : ∀ (j : Json) (t : Ty) (v : Val), decode t j = some v → W
         · cases h
           rename_i hr
           simp only [WT]
-          exact wt_of_pwt fs st (decodeMembers_pwt closed kvs fs _ st (pwt_init fs) hst) hr
+          exact wt_of_pwt fs st (decodeMembers_pwt closed kvs fs _ st hw.2 (pwt_init fs hw.2) hst) hr
         · cases h
       · cases h
     | int _ | str _ | bool | arr _ _ _ => simp [decode] at h
-theorem decodeItems_wt : ∀ (xs : List Json) (nul : Bool) (t : Ty) (vs : List Val), decodeItems nul t xs = some vs → WTItems nul t vs
-  | [], _, _, vs, h => by simp [decodeItems] at h; subst h; simp [WTItems]
-  | x :: xs, nul, t, vs, h => by
+theorem decodeItems_wt : ∀ (xs : List Json) (nul : Bool) (t : Ty) (vs : List Val), t.WF → decodeItems nul t xs = some vs → WTItems nul t vs
+  | [], _, _, vs, _, h => by simp [decodeItems] at h; subst h; simp [WTItems]
+  | x :: xs, nul, t, vs, hw, h => by
     simp only [decodeItems] at h
     split at h
     · rename_i v vs' hv hvs
       cases h
       simp only [WTItems]
-      exact ⟨(memberOf_wt true nul t x v (decode_wt x t v) hv).1, decodeItems_wt xs nul t vs' hvs⟩
+      exact ⟨(memberOf_wt true nul t x v (decode_wt x t v hw) hv).1, decodeItems_wt xs nul t vs' hw hvs⟩
     · cases h
-theorem decodeMembers_pwt (closed : Bool) : ∀ (kvs : List (String × Json)) (fs : List Field) (st st' : List Val), PWT fs st →
+theorem decodeMembers_pwt (closed : Bool) : ∀ (kvs : List (String × Json)) (fs : List Field) (st st' : List Val), Ty.WF.WFs fs → PWT fs st →
     decodeMembers closed fs st kvs = some st' → PWT fs st'
-  | [], _, _, _, hp, h => by simp [decodeMembers] at h; subst h; exact hp
-  | (k, jv) :: rest, fs, st, st', hp, h => by
+  | [], _, _, _, _, hp, h => by simp [decodeMembers] at h; subst h; exact hp
+  | (k, jv) :: rest, fs, st, st', hw, hp, h => by
     simp only [decodeMembers] at h
     split at h
     · split at h
       · cases h
-      · exact decodeMembers_pwt closed rest fs st st' hp h
+      · exact decodeMembers_pwt closed rest fs st st' hw hp h
     · rename_i i nul t hf
       split at h
       · cases h
       · rename_i v hv
-        have hm := (memberOf_wt false nul t jv v (decode_wt jv t v) hv).1
+        have hm := fun b => (memberOf_wt b nul t jv v (decode_wt jv t v (findIdx_wf fs k 0 i nul t hw hf)) hv).1
         have := pwt_set fs st k 0 i nul t v hf hp hm
-        exact decodeMembers_pwt closed rest fs _ st' (by simpa using this) h
+        exact decodeMembers_pwt closed rest fs _ st' hw (by simpa using this) h
 end
 
 /-! ## the decoder accepts exactly the documents the schema admits -/
@@ -306,7 +358,7 @@ theorem decodeMembers_isSome (closed : Bool) (fs : List Field) : ∀ (kvs : List
 
 /-- the required check, told from the initial state and the members seen -/
 def requiredOk' : List Field → List Val → List (String × Json) → Bool
-  | (n, req, _, _) :: fs, m :: ms, kvs => (!req || !m.isOmitted || (lookupJ kvs n).isSome) && requiredOk' fs ms kvs
+  | (n, req, _, _) :: fs, m :: ms, kvs => (!req.isReq || !m.isOmitted || (lookupJ kvs n).isSome) && requiredOk' fs ms kvs
   | [], [], _ => true
   | _, _, _ => false
 
@@ -359,9 +411,39 @@ theorem requiredOk'_set (k : String) (jv : Json) (rest : List (String × Json)) 
       rw [e]
       simp [requiredOk', lookupJ, hne, requiredOk'_set k jv rest v hv fs ms (i0 + 1) i nul t hf (by simpa [names] using hn.2)]
 
+theorem decode_not_omitted (t : Ty) (j : Json) (v : Val) (h : decode t j = some v) : v.isOmitted = false := by
+  cases j with
+  | null => cases t <;> simp [decode] at h
+  | bool _ | str _ => cases t <;> simp [decode] at h <;> subst h <;> rfl
+  | num n =>
+    cases n with
+    | int n => cases t <;> simp [decode] at h; obtain ⟨_, rfl⟩ := h; rfl
+    | frac => cases t <;> simp [decode] at h
+  | arr xs =>
+    cases t <;> simp [decode] at h
+    obtain ⟨_, _, rfl⟩ := h; rfl
+  | obj kvs =>
+    cases t with
+    | obj closed fs =>
+      simp only [decode] at h
+      split at h
+      · split at h
+        · cases h; rfl
+        · cases h
+      · cases h
+    | int _ | str _ | bool | arr _ _ _ => simp [decode] at h
+
 theorem memberOf_not_omitted (nul : Bool) (t : Ty) (j : Json) (v : Val) (h : memberOf nul j (decode t j) = some v) :
-    v.isOmitted = false :=
-  (memberOf_wt false nul t j v (decode_wt j t v) h).2
+    v.isOmitted = false := by
+  cases j with
+  | null =>
+    simp only [memberOf] at h
+    split at h
+    · cases h; rfl
+    · cases h
+  | bool _ | str _ | num _ | arr _ | obj _ =>
+    simp only [memberOf] at h
+    exact decode_not_omitted t _ v h
 
 theorem requiredOk_decodeMembers (closed : Bool) (fs : List Field) (hn : (names fs).Nodup) : ∀ (kvs : List (String × Json)) (st st' : List Val),
     decodeMembers closed fs st kvs = some st' → requiredOk fs st' = requiredOk' fs st kvs
@@ -382,23 +464,23 @@ theorem requiredOk_decodeMembers (closed : Bool) (fs : List Field) (hn : (names 
         simpa using this
 
 theorem requiredOk'_init : ∀ (fs : List Field) (kvs : List (String × Json)),
-    requiredOk' fs (fs.map fun _ => .omitted) kvs = true ↔ ∀ f ∈ fs, f.2.1 = true → (lookupJ kvs f.1).isSome
+    requiredOk' fs (fs.map initState) kvs = true ↔ ∀ f ∈ fs, f.2.1.isReq = true → (lookupJ kvs f.1).isSome
   | [], _ => by simp [requiredOk']
   | (n, req, nul, t) :: fs, kvs => by
-    simp only [List.map_cons, requiredOk', Val.isOmitted, Bool.and_eq_true, requiredOk'_init fs kvs, List.mem_cons,
+    simp only [List.map_cons, requiredOk', Bool.and_eq_true, requiredOk'_init fs kvs, List.mem_cons,
       forall_eq_or_imp]
-    cases req <;> simp
+    cases req <;> simp [Pres.isReq, initState, Pres.init, Val.isOmitted]
 
 theorem validFields_iff : ∀ (fs : List Field) (kvs : List (String × Json)),
     ValidFields fs kvs ↔ ∀ f ∈ fs, (match lookupJ kvs f.1 with
-      | none => f.2.1 = false
+      | none => f.2.1.isReq = false
       | some j => slotOk f.2.2.1 j (Valid f.2.2.2 j))
   | [], _ => by simp [ValidFields]
   | (n, req, nul, t) :: fs, kvs => by
     simp only [ValidFields, validFields_iff fs kvs, List.mem_cons, forall_eq_or_imp]
     cases lookupJ kvs n <;> exact Iff.rfl
 
-theorem findIdx_mem : ∀ (fs : List Field) (n : String) (req nul : Bool) (t : Ty) (i0 : Nat), (names fs).Nodup →
+theorem findIdx_mem : ∀ (fs : List Field) (n : String) (req : Pres) (nul : Bool) (t : Ty) (i0 : Nat), (names fs).Nodup →
     (n, req, nul, t) ∈ fs → ∃ i, findIdx fs n i0 = some (i, nul, t)
   | [], _, _, _, _, _, _, h => by cases h
   | (n', req', nul', t') :: fs, n, req, nul, t, i0, hn, h => by
@@ -413,27 +495,6 @@ theorem findIdx_mem : ∀ (fs : List Field) (n : String) (req nul : Bool) (t : T
           exact absurd (List.mem_map.mpr ⟨_, h, rfl⟩) hn.1
       obtain ⟨i, hi⟩ := findIdx_mem fs n req nul t (i0 + 1) (by simpa [names] using hn.2) h
       exact ⟨i, by simp [findIdx, hne, hi]⟩
-
-theorem findIdx_some_mem : ∀ (fs : List Field) (k : String) (i0 i : Nat) (nul : Bool) (t : Ty),
-    findIdx fs k i0 = some (i, nul, t) → ∃ req, (k, req, nul, t) ∈ fs
-  | [], _, _, _, _, _, h => by simp [findIdx] at h
-  | (n, req, nul', t') :: fs, k, i0, i, nul, t, h => by
-    simp only [findIdx] at h
-    split at h
-    · rename_i heq
-      have heq : n = k := by simpa using heq
-      cases h; subst heq
-      exact ⟨req, List.mem_cons_self ..⟩
-    · obtain ⟨r, hr⟩ := findIdx_some_mem fs k (i0 + 1) i nul t h
-      exact ⟨r, List.mem_cons_of_mem _ hr⟩
-
-theorem wfs_mem : ∀ (fs : List Field) (f : Field), Ty.WF.WFs fs → f ∈ fs → f.2.2.2.WF
-  | [], _, _, h => by cases h
-  | (n, req, nul, t) :: fs, f, hw, h => by
-    simp only [Ty.WF.WFs] at hw
-    rcases List.mem_cons.mp h with e | h
-    · cases e; exact hw.1
-    · exact wfs_mem fs f hw.2 h
 
 theorem memberOf_isSome (nul : Bool) (j : Json) (r : Option Val) : (memberOf nul j r).isSome ↔ slotOk nul j (r.isSome = true) := by
   cases j <;> simp [memberOf, slotOk]
@@ -467,20 +528,20 @@ theorem accept_obj (closed : Bool) (fs : List Field) (kvs : List (String × Json
     (ih : ∀ k jv, (k, jv) ∈ kvs → ∀ t : Ty, t.WF → ((decode t jv).isSome ↔ Valid t jv)) :
     (decode (.obj closed fs) (.obj kvs)).isSome ↔ Valid (.obj closed fs) (.obj kvs) := by
   have hdec : (decode (.obj closed fs) (.obj kvs)).isSome ↔
-      AcceptM closed fs kvs ∧ requiredOk' fs (fs.map fun _ => .omitted) kvs = true := by
+      AcceptM closed fs kvs ∧ requiredOk' fs (fs.map initState) kvs = true := by
     simp only [decode]
-    cases hd : decodeMembers closed fs (fs.map fun _ => .omitted) kvs with
+    cases hd : decodeMembers closed fs (fs.map initState) kvs with
     | none =>
       have : ¬ AcceptM closed fs kvs := fun ha => by
-        have := (decodeMembers_isSome closed fs kvs (fs.map fun _ => .omitted)).mpr ha
+        have := (decodeMembers_isSome closed fs kvs (fs.map initState)).mpr ha
         rw [hd] at this; cases this
       simp [this]
     | some st =>
-      have ha := (decodeMembers_isSome closed fs kvs (fs.map fun _ => .omitted)).mp (by rw [hd]; rfl)
+      have ha := (decodeMembers_isSome closed fs kvs (fs.map initState)).mp (by rw [hd]; rfl)
       have hr := requiredOk_decodeMembers closed fs hn kvs _ st hd
       show (if requiredOk fs st = true then some (Val.obj st) else none).isSome = true ↔ _
       rw [hr]
-      cases requiredOk' fs (fs.map fun _ => .omitted) kvs <;> simp [ha]
+      cases requiredOk' fs (fs.map initState) kvs <;> simp [ha]
   rw [hdec, requiredOk'_init]
   simp only [Valid, validFields_iff, AcceptM]
   have hclosed : (closed = true → ∀ k jv, (k, jv) ∈ kvs → (findIdx fs k 0).isSome) ↔
@@ -496,10 +557,12 @@ theorem accept_obj (closed : Bool) (fs : List Field) (kvs : List (String × Json
     cases hl : lookupJ kvs n with
     | none =>
       simp only
-      cases req
-      · rfl
-      · have := hr _ hf rfl
+      cases req with
+      | req =>
+        have := hr _ hf rfl
         simp [hl] at this
+      | opt => rfl
+      | dflt d => rfl
     | some j =>
       simp only
       have hm := lookupJ_mem hl
@@ -608,7 +671,7 @@ theorem encodeFields_uniqueKeys : ∀ (ms : List Val) (fs : List Field), Ty.WF.W
   | m :: ms, [], _ => by simp [encodeFields, UniqueKeysM]
   | m :: ms, (n, _, _, t) :: fs, hw => by
     simp only [Ty.WF.WFs] at hw
-    have ih := encodeFields_uniqueKeys ms fs hw.2
+    have ih := encodeFields_uniqueKeys ms fs hw.2.2
     have hm := encode_uniqueKeys m t hw.1
     cases m <;> simp only [encodeFields, UniqueKeysM] <;> first | exact ih | exact ⟨hm, ih⟩
 end
@@ -619,17 +682,18 @@ theorem encode_valid (t : Ty) (v : Val) (hw : t.WF) (h : WT t v) : Valid t (enco
 
 /-- and decoding is canonical: what was decoded, encoded and decoded again is the same value -/
 theorem decode_canonical (t : Ty) (j : Json) (v : Val) (hw : t.WF) (h : decode t j = some v) :
-    decode t (encode t v) = some v := decode_encode t v hw (decode_wt j t v h)
+    decode t (encode t v) = some v := decode_encode t v hw (decode_wt j t v hw h)
 
 /-! non-vacuity: a schema with every kind of member, a value in each of the three states, a refused document -/
-def exTy : Ty := .obj false [("id", true, false, .int {}), ("tag", false, true, .str {}), ("xs", false, false, .arr {} true (.int {})),
-  ("in", true, true, .obj true [("b", false, false, .bool)])]
-example : exTy.WF := by simp [exTy, Ty.WF, Ty.WF.WFs, names]
-example : WT exTy (.obj [.int 7, .null, .omitted, .obj [.bool true]]) := by simp [exTy, WT, WTFields, memberOk, inRange]
+def exTy : Ty := .obj false [("id", .req, false, .int {}), ("tag", .opt, true, .str {}), ("xs", .opt, false, .arr {} true (.int {})),
+  ("in", .req, true, .obj true [("b", .opt, false, .bool)]), ("lim", .dflt (.int 10), false, .int {})]
+example : exTy.WF := by simp [exTy, Ty.WF, Ty.WF.WFs, names, WT, validate, IntC.ok, inRange]
+example : WT exTy (.obj [.int 7, .null, .omitted, .obj [.bool true], .int 3]) := by
+  simp [exTy, WT, WTFields, memberOk, inRange, Pres.mayOmit]
 example : decode exTy (.obj [("in", .null), ("zz", .num 1), ("xs", .arr [.null, .num 2]), ("id", .num 7)])
-    = some (.obj [.int 7, .omitted, .arr [.null, .int 2], .null]) := by rfl
-example : encode exTy (.obj [.int 7, .omitted, .arr [.null, .int 2], .null])
-    = .obj [("id", .num 7), ("xs", .arr [.null, .num 2]), ("in", .null)] := by rfl
+    = some (.obj [.int 7, .omitted, .arr [.null, .int 2], .null, .int 10]) := by rfl   -- `lim` absent: its default
+example : encode exTy (.obj [.int 7, .omitted, .arr [.null, .int 2], .null, .int 10])
+    = .obj [("id", .num 7), ("xs", .arr [.null, .num 2]), ("in", .null), ("lim", .num 10)] := by rfl
 example : decode exTy (.obj [("in", .null), ("xs", .arr [])]) = none := by rfl          -- required `id` missing
 example : decode exTy (.obj [("id", .null), ("in", .null)]) = none := by rfl          -- `id` is not nullable
 end JCodec
